@@ -110,7 +110,7 @@ def run(all_props=False, only=None):
     from sa.main import CLAIMED
     results = {}
     rows = []
-    for dst in sorted(glob.glob(os.path.join(SEEDED, '*'))):
+    for dst in sorted(d for d in glob.glob(os.path.join(SEEDED, '*')) if os.path.isdir(d)):
         sid = os.path.basename(dst)
         if only and only not in sid:
             continue
